@@ -29,6 +29,7 @@ package core
 
 //@ define hdr(buf) = buf.buf[buf.r + 1 : buf.r + codec.lf(buf) - 1]
 //@ define bulkok(buf) = codec.left(buf) >= 1 && codec.lf(buf) >= 2 && buf.buf[buf.r + codec.lf(buf) - 1] == '\r' && buf.buf[buf.r] == '$' && canon(hdr(buf))
+//@ define bulkhdr_ok(buf) = codec.left(buf) >= 1 && codec.lf(buf) >= 2 && buf.buf[buf.r + codec.lf(buf) - 1] == '\r' && buf.buf[buf.r] == '$' && canon(hdr(buf))
 //@ define bulklen(buf) = dec(hdr(buf), len(hdr(buf)))
 //@ define datapos(buf) = buf.r + codec.lf(buf) + 1
 
@@ -43,6 +44,8 @@ package core
 //@       && old(buf.buf[datapos(buf) + bulklen(buf)]) == '\r' && old(buf.buf[datapos(buf) + bulklen(buf) + 1]) == '\n'
 //@   ensures[taxonomy] (result1 != nil && result1 != codec.ErrInvalidResp) ==> (result1 == codec.EmptyLine || result1 == codec.ShortLine || result1 == codec.ErrLFNotFound)
 //@   ensures[incomplete] (result1 == codec.ShortLine || result1 == codec.ErrLFNotFound) ==> result0 == nil
+//@   ensures[wait@C12] (result1 != nil && result1 != codec.ErrInvalidResp) ==> old(codec.left(buf)) < 1 || old(codec.lf(buf)) < 0
+//@       || (old(bulkhdr_ok(buf)) && old(datapos(buf) + bulklen(buf) + 2) > len(buf.buf))
 //@   ensures[samebuf] buf.buf == old(buf.buf)
 //@   ensures[frame] result1 == nil ==> bulk_ok(buf.buf, old(buf.r)) && buf.r == bulk_next(buf.buf, old(buf.r)) && result0 == bulk_data(buf.buf, old(buf.r))
 
@@ -177,6 +180,7 @@ package core
 //@   requires c != nil && EngineGlobal != nil
 //@   ensures[nonnil@C12] (result1 == nil) == (result0 != nil)
 //@   ensures[taxonomy@C12] (result1 != nil && result1 != codec.ErrInvalidResp) ==> (result1 == errors.ErrIncompletePacket || result1 == codec.EmptyLine || result1 == codec.ShortLine || result1 == codec.ErrLFNotFound)
+//@   ensures[wait@C12] (result1 == errors.ErrIncompletePacket) ==> len(codec.buffer.buf) == 0 || bidx(codec.buffer.buf, '\n') < 0
 //@   ensures[frame.hdr@C08,C12] result1 == nil ==> reqhdr_ok(codec.buffer.buf)
 //@   ensures[frame.cmd@C08,C12] result1 == nil ==> bulk_ok(codec.buffer.buf, reqargs(codec.buffer.buf))
 //@   ensures[frame.args@C08,C12] result1 == nil ==> args_ok(codec.buffer.buf, reqargc(codec.buffer.buf), reqargs(codec.buffer.buf))
